@@ -36,8 +36,13 @@ def case_strategy(draw, tier="quick"):
     # invocations during which the consumer feeds a follow-up element back into the entry
     # before it returns (a re-entrant arrival, while latest is synchronously handing over)
     reemit = sorted(draw(st.sets(st.integers(0, 6), max_size=2))) if draw(st.booleans()) else []
+    detach = None
+    if draw(st.integers(0, 3)) == 0 and len(acts) >= 2:
+        # destroy() the latest node in mid-run (it only disconnects) and connect it again later
+        i = draw(st.integers(0, len(acts) - 1))
+        detach = [i, draw(st.integers(i, len(acts)))]
     return {"spec": spec, "cmodes": {str(len(nodes) - 1): mode}, "actions": [list(a) for a in acts],
-            "reemit": reemit}
+            "reemit": reemit, "detach": detach}
 
 
 def execute(case):
@@ -67,10 +72,23 @@ def execute(case):
             for s_ in built.nodes:
                 if getattr(s_, "func", None) is cons:
                     s_.func = w
-    run = schedule.execute(case, consumer_modes=cm, after_build=hook)
+    lat = [i for i, nd in enumerate(spec["nodes"]) if nd["k"] == "latest"][0]
+    step_hook = None
+    if case.get("detach"):
+        i0, j0 = case["detach"]
+
+        def step_hook(k, built):
+            n = built.nodes[lat]
+            up = built.nodes[spec["nodes"][lat]["u"][0]]
+            if k == i0:
+                n.destroy()
+            if k == j0 and not n.upstreams:
+                up.connect(n)
+    run = schedule.execute(case, consumer_modes=cm, after_build=hook, step_hook=step_hook)
     ev = run.log.events
     sink = len(spec["nodes"]) - 1
-    arrivals = [e[1] for e in ev if e[0] == "emit"]            # emission ids in arrival order
+    # what latest() received, in arrival order (ids of the source emissions)
+    arrivals = [min(prov(e[3])) for e in ev if e[0] == "arr" and e[1] == lat]
     delivered = [min(prov(e[3])) for e in ev if e[0] == "cc" and e[1] == sink]
     v = []
     pos = {k: i for i, k in enumerate(arrivals)}
@@ -92,7 +110,7 @@ def execute(case):
             pending += 1
         elif e[0] == "cf" and e[1] == sink:
             pending -= 1
-        elif e[0] == "emit" and pending > 0:
+        elif e[0] == "arr" and e[1] == lat and pending > 0:
             busy = True
     classes = ["consumer:" + list(cm.values())[0]]
     if busy:
@@ -101,6 +119,8 @@ def execute(case):
         classes.append("something-dropped")
     if any(k > 1000 for k in arrivals):
         classes.append("re-entrant-arrival")
+    if case.get("detach"):
+        classes.append("detach-reattach")
     return Result(v, nontrivial=busy, classes=classes)
 
 
